@@ -287,6 +287,26 @@ func c08CorrSV1(c *hx.Ctx) {
 		dht := k%3 == 0
 		// SV1 and jpeg/lossless: SOF3
 		b := c08JpegHeaderStream(r, 0xC3, dht, true)
+		if k%8 == 5 {
+			// directed: two well-formed frame headers (the second one with other dimensions), then nothing, an EOI, or a
+			// scan header — observable as `ok w h …` of the first / last header, or `err` (second header rejected)
+			nc := r.Pick([]int{1, 3})
+			sof := func(h, w int) []byte {
+				pl := []byte{byte(r.Pick([]int{8, 12, 16})), byte(h >> 8), byte(h), byte(w >> 8), byte(w), byte(nc)}
+				for i := 0; i < nc; i++ {
+					pl = append(pl, byte(i+1), 0x11, 0)
+				}
+				return c08MkSeg(0xC3, pl)
+			}
+			b = append([]byte{0xFF, 0xD8}, sof(r.Range(1, 4), r.Range(1, 4))...)
+			if r.Bool() {
+				b = append(b, c08MkSeg(0xE0, r.Bytes(r.Intn(4)))...)
+			}
+			b = append(b, sof(r.Pick([]int{1, 2, 300, 30000}), r.Pick([]int{1, 3, 300, 30000}))...)
+			if r.Bool() {
+				b = append(b, 0xFF, 0xD9)
+			}
+		}
 		if !(c08HasPair(b, 0xC4) && c08HasPair(b, 0xDA)) {
 			var line string
 			if p, _ := hx.Guard(func() {
